@@ -395,13 +395,56 @@ def run(prog, check):
                      'the EXOGENOUS marker is looked for / removed in the right-hand side component only' if ok else
                      'the EXOGENOUS marker is looked for in `%s`, which includes the free-text description' % unparse(subject),
                      "a variable whose description contains the word EXOGENOUS")
-    # descriptions are emitted behind '#': the row formatter puts the third component after the comment sign
+    # descriptions are emitted behind '#': the row template (followed through concatenation, replace chains and .format, any
+    # number written as N) reads  <name> = <rhs>  # <description>
+    def template_text(e, env):
+        if isinstance(e, ast.Constant) and isinstance(e.value, str):
+            return e.value
+        if isinstance(e, ast.Name):
+            return env.get(e.id)
+        if isinstance(e, ast.Call) and isinstance(e.func, ast.Name) and e.func.id in ('str', 'repr', 'int', 'len', 'max'):
+            return 'N'
+        if isinstance(e, ast.BinOp) and isinstance(e.op, ast.Add):
+            l_, r_ = template_text(e.left, env), template_text(e.right, env)
+            return None if l_ is None or r_ is None else l_ + r_
+        if isinstance(e, ast.JoinedStr):
+            out = ''
+            for v_ in e.values:
+                out += v_.value if isinstance(v_, ast.Constant) else 'N'
+            return out
+        if isinstance(e, ast.Call) and isinstance(e.func, ast.Attribute) and e.func.attr == 'replace' and len(e.args) == 2:
+            base, a_, b_ = template_text(e.func.value, env), template_text(e.args[0], env), template_text(e.args[1], env)
+            return None if None in (base, a_, b_) else base.replace(a_, b_)
+        if isinstance(e, ast.Call) and isinstance(e.func, ast.Attribute) and e.func.attr == 'format':
+            base = template_text(e.func.value, env)
+            if base is None:
+                return None
+            import re as _r
+            return _r.sub(r'\{[^{}]*\}', 'N', base).replace('{{', '{').replace('}}', '}')
+        return None
     fmt_ok = False
+    n_templates = 0
     for fn in prog.all_functions():
-        if fn.cls is not None and fn.cls.name == 'Model':
-            for c in ast.walk(fn.node):
-                if isinstance(c, ast.Constant) and isinstance(c.value, str) and c.value.count('%') >= 3 and '#' in c.value:
-                    fmt_ok = c.value.rfind('%') > c.value.find('#') and c.value.count('#') == 1 and c.value.find('=') < c.value.find('#')
+        if fn.cls is None or fn.cls.name != 'Model':
+            continue
+        env_ = {}
+        uses = []
+        for st_ in ast.walk(fn.node):
+            pass
+        # straight-line order of the function body
+        for st_ in [x for x in ast.walk(fn.node) if isinstance(x, ast.Assign)]:
+            if len(st_.targets) == 1 and isinstance(st_.targets[0], ast.Name):
+                t_ = template_text(st_.value, env_)
+                if t_ is not None:
+                    env_[st_.targets[0].id] = t_
+                else:
+                    env_.pop(st_.targets[0].id, None)
+        for c in ast.walk(fn.node):
+            if isinstance(c, ast.BinOp) and isinstance(c.op, ast.Mod):
+                txt = template_text(c.left, env_)
+                if txt is not None and txt.count('%') >= 3 and '#' in txt:
+                    n_templates += 1
+                    fmt_ok = txt.rfind('%') > txt.find('#') and txt.count('#') == 1 and txt.find('=') < txt.find('#')
     check.ob('C14.R6', 'Model::description-behind-comment-sign', fmt_ok, 'sfc_models/models.py',
              'rows are formatted as `name = rhs  # description`' if fmt_ok else 'the description is not emitted behind a single comment sign', 'any description')
     # free text (descriptions, long names) is never emitted on a comment-only line: the parser reads such lines for the
